@@ -31,6 +31,10 @@ def run(ck, ctx):
     ck.rule("R09.7", "the server awaits durability before it answers: in ReplicatedShardedState::execute the Always edge of the fsync-policy "
                      "switch reaches the reply only through an awaited WalActorHandle::write_durable of the delta just produced (never the "
                      "fire-and-forget call), and every delta a shard returns reaches that switch when a WAL is configured")
+    ck.rule("R09.8", "a restarted rotator never reuses a file name: WalRotator::new starts from the maximum sequence over *every* listed "
+                     "name (Iterator::max over parse_wal_sequence of the whole listing - not the last/first element, which a stray file "
+                     "sorting after the newest WAL file turns into 0), because creating an existing wal-N file truncates entries that "
+                     "were fsynced and acknowledged in the previous run")
     ck.nd("the crash model (what the kernel persists after fsync) is trusted: fsync of a file covers every byte appended before it")
     ck.nd("behaviour for every fault sequence / batch boundary at run time (only the code shape on every path is decided)")
     for cfg in ctx.configs:
@@ -41,6 +45,7 @@ def run(ck, ctx):
         _r093(ck, prog, cfg)
         _r094(ck, prog, cfg)
         _r097(ck, prog, cfg)
+        _r098(ck, prog, cfg)
         from . import c10
         c10.r106(ck, prog, cfg, "R09.6")
         ck.fn_count += len(prog.fns)
@@ -529,3 +534,35 @@ def _r097(ck, prog, cfg):
         ck.check(path is None, "R09.7", "every-delta-reaches-the-wal" + _tag(cfg),
                  "a delta returned by the shard can bypass the WAL although a WAL handle is configured", fn.where(fn.term(b)["ln"]),
                  detail="only `no delta` and `no WAL` skip the WAL write")
+
+
+def _r098(ck, prog, cfg):
+    from . import lib2
+    f = prog.one("streaming::wal::WalRotator::<S>::new")
+    aggs = [st for b, i, st in f.stmts() if st["rv"]["k"] == "agg" and st["rv"].get("n", "").endswith("wal::WalRotator")]
+    if len(aggs) != 1:
+        ck.anchor_lost("R09.8", "WalRotator::new does not build exactly one WalRotator")
+        return
+    adt = prog.adts["streaming::wal::WalRotator"]["variants"][0]["fields"]
+    idx = [i for i, fl in enumerate(adt) if fl["n"] == "current_sequence"]
+    if not idx:
+        ck.anchor_lost("R09.8", "WalRotator has no current_sequence field")
+        return
+    o = aggs[0]["rv"]["ops"][idx[0]]
+    ch = lib2.iter_chain(f, o) if "c" not in o else []
+    # iter_chain stops at non-iterator calls: walk through Option::unwrap_or & co. first
+    s = src_of_operand(f, o, through_calls=(r"Option::<.*>::(unwrap_or|unwrap_or_default|unwrap_or_else|map_or)(::<.*>)?$",)) if "c" not in o else None
+    names = []
+    if s is not None and s.kind == "call":
+        cur = s
+        while cur.kind == "call" and len(names) < 12:
+            names.append(callee(cur.term).rsplit("::", 1)[-1].split("<")[0] if not callee(cur.term).endswith(">") else re.sub(r"::<.*>$", "", callee(cur.term)).rsplit("::", 1)[-1])
+            if not cur.term["args"]:
+                break
+            cur = src_of_operand(f, cur.term["args"][0], through_calls=(r"Deref>::deref$", r"Try>::branch$"))
+    good = bool(names) and names[0] == "max" and "list" in names and not [n for n in names if n in ("last", "first", "take", "skip", "nth", "get", "pop", "rev")] \
+        and any(n in ("filter_map", "map", "flat_map") for n in names)
+    ck.check(good, "R09.8", "new:max-over-all-names" + _tag(cfg),
+             "the rotator's starting sequence is not the maximum over every listed name (derivation: %s): if the element it looks at is not a "
+             "WAL file the numbering restarts at 0 and the next rotation re-creates - truncates - a file holding acknowledged entries"
+             % " <- ".join(names[:8]), f.where(aggs[0]["ln"]), detail="list() -> iter -> filter_map(parse_wal_sequence) -> max")
